@@ -158,7 +158,7 @@ def report(pid, tier, seed, m, sel, res, findings, cmd, t0, outdir):
                 fh.write("    verifier output:\n" + "".join("      " + l + "\n" for l in f["rendered"].split("\n")))
             fh.write("\ncounterexample: none (Verus yields no model); no-failing-input-found\n")
         lines.append("VIOLATION property=%s replay=%s no-failing-input-found" % (pid, rpath))
-        for f in new_viol[:10]:
+        for f in new_viol[:40]:
             lines.append("  failed obligation: %s in %s: %s" % (f["clause"] or "built-in", f["fn"], f["msg"]))
     elif undecided:
         rc = 2
